@@ -78,6 +78,10 @@ class OpenCtx(BaseCtx):
                 return None
             for k, c in enumerate(live):
                 if c.state == "connecting":
+                    if self.cfg.get("refusals") and self.session >= 1 and rng.chance(0.3):
+                        # the peer is not listening yet: attempts between two sessions fail
+                        self.stats["gen:attempt_refused_between_sessions"] += 1
+                        return ["conn_refuse", k]
                     self.stage = "opensent"
                     return ["conn_ok", k]
             if w.reactor.due():
@@ -467,8 +471,8 @@ class OpenProfile(BaseProfile):
             "families, add-path) + 2-5 consecutive sessions whose peer OPENs differ (capability sets full/none/random/without or "
             "only 4-octet-AS, hold times, rejected ones: bad version / wrong AS / hold 1,2) + UPDATEs whose AS_PATH is 4-octet iff "
             "both OPENs of this session carried capability 65; non-trivial = the agent sent an OPEN; distinct = distinct "
-            "(op, outputs) sequence")
-    probes = ["gen:width_ambiguous_as_path", "gen:sessions_ended_in_openconfirm", "gen:open_with_inconsistent_as_field", "later_sessions", "peer_open_rejectable", "peer_open_acceptable", "updates_checked",
+            "(op, outputs) sequence; 30 % of the runs have refused attempts between sessions, 15 % leave local_addr at 0.0.0.0 with a per-connection source address, 10 % configure VPNv4 with an empty ext_nexthop list, 12 % use the stock DefaultHandler")
+    probes = ["gen:attempt_refused_between_sessions", "gen:width_ambiguous_as_path", "gen:sessions_ended_in_openconfirm", "gen:open_with_inconsistent_as_field", "later_sessions", "peer_open_rejectable", "peer_open_acceptable", "updates_checked",
               "as4_advertised_by_one_side_only", "keepalive_interval_checks", "hold_expiries_checked"]
 
     def gen_config(self, rng, idx, tier):
@@ -489,6 +493,23 @@ class OpenProfile(BaseProfile):
         cfg["late_close"] = rng.chance(0.25)
         cfg["second_open"] = rng.chance(0.25)
         cfg["hfail_only"] = ["open_received"] if rng.chance(0.25) else None
+        cfg["refusals"] = rng.chance(0.3)
+        if rng.chance(0.12):
+            # the stock DefaultHandler (message log on the simulated file system) is the application
+            cfg["handler"] = "default"
+            cfg["write_disk"] = rng.chance(0.8)
+            cfg["rotate_bytes"] = rng.pick([600, 10 ** 9])
+            cfg["hfail_only"] = None
+        if rng.chance(0.1):
+            # VPNv4 configured (Extended Next Hop Encoding capability in the OPEN) with the capability's list of
+            # families emptied in the ini file ('ext_nexthop ='; with the default list yabgp does not start, A.2)
+            cfg["afi_safi"] = rng.pick([["ipv4", "vpnv4"], ["vpnv4"], ["ipv4", "vpnv4", "flowspec"]])
+            cfg["ext_nexthop"] = []
+        if rng.chance(0.15):
+            # local_addr left at its default: the kernel chooses the source address of every connection (a
+            # multi-homed host); the BGP identifier learned on the first connection stays
+            cfg["local_addr"] = "0.0.0.0"
+            cfg["local_hosts"] = rng.pick([["10.0.0.1", "10.9.0.1"], ["192.0.2.7", "10.0.0.1", "10.0.0.1"], ["10.0.0.1"]])
         cfg["max_ops"] = 120
         return cfg
 
